@@ -112,3 +112,42 @@ def _tp_ghosts(args, result, locs):
 
 
 CONTRACTS['threshold_proportional'].concrete_ghosts = _tp_ghosts
+
+
+# ---- weight_conversion(W, wcm, copy=True): dispatch to binarize / normalize / invert through their proved contracts -------------------------
+# (copy=True only: the in-place variants are specified on the three utilities themselves; a stub never writes.)
+from engine.pyvc.run import callee_from_clauses as _cfc
+
+
+def _setup_wc(eng, st):
+    n = z3.Int('n')
+    st.pc.append(n >= 1)
+    st.env['W'] = alloc(st, 2, z3.Const('W0', A2R), (n, n), REAL)
+    st.ghost['n0'] = n
+    st.env['copy'] = True
+    bs = {lit: z3.Bool('wcm_is_' + lit) for lit in ('binarize', 'normalize', 'lengths')}
+    st.pc.append(z3.And(*[z3.Not(z3.And(bs[a], bs[b])) for a in bs for b in bs if a < b]))
+    st.env['wcm'] = Opaque('strsym', eq=lambda lit: bs.get(lit, z3.BoolVal(False)))
+    for lit, b in bs.items():
+        st.ghost['wcm_is_' + lit] = b
+    for nm in ('wx0', 'wy0'):
+        st.env[nm] = z3.Int(nm)
+
+
+def _cells_only(c):
+    # (clauses about the copy flag are specified on the utilities themselves; clauses that name the witness of np.max are internal to normalize)
+    return [e for e in c.ensures if not e[0].startswith('copy-') and 'max_witness' not in e[1]]
+
+
+_WC_ENS = []
+for _lit, _key in (('binarize', 'binarize'), ('normalize', 'normalize'), ('lengths', 'invert')):
+    for _nm, _src in _cells_only(CONTRACTS[_key]):
+        _WC_ENS.append(('%s: %s' % (_lit, _nm), "implies(wcm_is_%s, %s)" % (_lit, _src)))
+CONTRACTS['weight_conversion'] = Contract(
+    OTHER, 'weight_conversion', ['W', 'wcm', 'copy'], setup=_setup_wc,
+    requires=[('normalize-needs-a-nonzero-entry', "implies(wcm_is_normalize, And(inr(wx0, n0), inr(wy0, n0), W[wx0, wy0] != 0))")],
+    ensures=_WC_ENS + [('argument-untouched', "unchanged('W')")],
+    ensures_raises=[('unknown-command-is-rejected', "And(raised('NotImplementedError'), Not(Or(wcm_is_binarize, wcm_is_normalize, wcm_is_lengths)))")])
+CONTRACTS['weight_conversion'].callees = {
+    k: _cfc(k, ['W', 'copy'], list(CONTRACTS[k].requires), _cells_only(CONTRACTS[k]), [('mat', 'n0', 'n0')], ghosts={'n0': 'len(W)', 'wx0': 'wx0', 'wy0': 'wy0'})
+    for k in ('binarize', 'normalize', 'invert')}
